@@ -75,17 +75,132 @@ def add_heat_consumer_bridge(rng, spec):
     return spec
 
 
+SOLE_LINK_KINDS = ("pipe", "valve", "pump", "compressor", "heat_exchanger", "flow_control_passive",
+                   "flow_control_active", "heat_consumer", "press_control")
+
+
+def link_op(spec, kind, a, c, scale, p_ref):
+    """one branch of the given kind declared from a to c"""
+    if kind == "pipe":
+        return ["create_pipe_from_parameters", {"index": _new_label(spec, "create_pipe_from_parameters"),
+                                                 "from_junction": a, "to_junction": c, "length_km": 0.2,
+                                                 "inner_diameter_mm": 80., "k_mm": 0.1, "sections": 1}]
+    if kind == "valve":
+        return ["create_valve", {"index": _new_label(spec, "create_valve"), "junction": a, "element": c, "et": "ju",
+                                 "inner_diameter_mm": 80., "opened": True, "loss_coefficient": 0.5}]
+    if kind == "pump":
+        return ["create_pump", {"index": _new_label(spec, "create_pump"), "from_junction": a, "to_junction": c,
+                                "std_type": "P1", "in_service": True}]
+    if kind == "compressor":
+        return ["create_compressor", {"index": _new_label(spec, "create_compressor"), "from_junction": a,
+                                      "to_junction": c, "pressure_ratio": 1.05, "in_service": True}]
+    if kind == "heat_exchanger":
+        return ["create_heat_exchanger", {"index": _new_label(spec, "create_heat_exchanger"), "from_junction": a,
+                                          "to_junction": c, "qext_w": 1000., "inner_diameter_mm": 80.}]
+    if kind in ("flow_control_passive", "flow_control_active"):
+        return ["create_flow_control", {"index": _new_label(spec, "create_flow_control"), "from_junction": a,
+                                        "to_junction": c, "controlled_mdot_kg_per_s": scale,
+                                        "control_active": kind.endswith("_active"), "in_service": True}]
+    if kind == "heat_consumer":
+        return ["create_heat_consumer", {"index": _new_label(spec, "create_heat_consumer"), "from_junction": a,
+                                         "to_junction": c, "qext_w": 1000., "controlled_mdot_kg_per_s": scale}]
+    if kind == "press_control":
+        return ["create_pressure_control", {"index": _new_label(spec, "create_pressure_control"), "from_junction": a,
+                                            "to_junction": c, "controlled_junction": c, "controlled_p_bar": 0.8 * p_ref,
+                                            "control_active": True, "in_service": True, "check_controllability": False}]
+    raise ValueError(kind)
+
+
+def kinds_for(fluid):
+    return [k for k in SOLE_LINK_KINDS if not (k == "pump" and fluid != "water") and not (k == "compressor" and fluid == "water")]
+
+
+def add_sole_link(rng, spec, kind=None, reverse=None):
+    """a new junction with a sink whose only connection to the net is one branch of the given (or a random) kind,
+    declared towards the new junction or - reverse - away from it, so that every kind is traversed in both directions"""
+    js = _junction_labels(spec)
+    tj = _template_junction(spec)
+    a = rng.choice(js[:max(1, len(js) // 2)])
+    c = max(js) + 1
+    kind = kind or rng.choice(kinds_for(spec["fluid"]))
+    reverse = rng.random() < 0.5 if reverse is None else reverse
+    scale = 0.002 if spec["fluid"] != "water" else 0.05
+    spec["ops"].append(["create_junction", {"index": c, "pn_bar": tj["pn_bar"], "tfluid_k": tj["tfluid_k"]}])
+    op = link_op(spec, kind, c if reverse else a, a if reverse else c, scale, tj["pn_bar"])
+    if kind == "press_control" and reverse:
+        op[1]["controlled_junction"] = a
+    spec["ops"].append(op)
+    spec["ops"].append(["create_sink", {"index": _new_label(spec, "create_sink"), "junction": c, "mdot_kg_per_s": scale}])
+    return spec, c, kind, reverse
+
+
+def connects(kind, reverse):
+    """documented: does a branch of this kind supply the junction behind it?"""
+    if kind in ("flow_control_active", "heat_consumer"):
+        return False
+    if kind == "press_control":
+        return not reverse
+    return True
+
+
+def sole_link_matrix(ctx):
+    """every branch kind as the only link to a junction, in both orientations, on a two-pipe base net: the junction
+    behind the link is calculated (masks and, if the run converges, res_junction.p_bar) iff the kind connects"""
+    for fluid in ("water", "lgas"):
+        for kind in kinds_for(fluid):
+            for reverse in (False, True):
+                spec = {"fluid": fluid, "ops": [
+                    ["create_junction", {"index": 0, "pn_bar": 5.0, "tfluid_k": 300.0}],
+                    ["create_junction", {"index": 1, "pn_bar": 5.0, "tfluid_k": 300.0}],
+                    ["create_ext_grid", {"index": 0, "junction": 0, "p_bar": 5.0, "t_k": 300.0}],
+                    ["create_pipe_from_parameters", {"index": 0, "from_junction": 0, "to_junction": 1, "length_km": 0.1,
+                                                      "inner_diameter_mm": 100., "k_mm": 0.1, "sections": 1}]]}
+                spec, c, kind, reverse = add_sole_link(ctx.rng, spec, kind=kind, reverse=reverse)
+                net = gen.build(spec)
+                exp = connects(kind, reverse)
+                try:
+                    drive.stages(net, use_numba=False)
+                    L = net["_lookups"]
+                    got = bool(L["node_active_hydraulics"][L["node_index"]["junction"][c]])
+                except Exception as e:  # noqa: BLE001
+                    got = "exception %s" % type(e).__name__
+                ctx.case({"monitor": "sole_link", "fluid": fluid, "kind": kind, "reverse": reverse}, True)
+                ctx.count("monitor_sole_link")
+                if got != exp:
+                    ctx.violation({"monitor": "sole_link", "kind": kind, "reverse": reverse},
+                                  "junction %d is attached to the supplied net only through a %s declared %s; it is %s, "
+                                  "the documented behaviour of that element says %s"
+                                  % (c, kind, "away from the supplied side (supplied junction = to_junction)" if reverse
+                                     else "from the supplied side", "calculated" if got is True else
+                                     "not calculated" if got is False else got, "supplied" if exp else "not supplied"),
+                                  {"kind": "sole_link", "net": spec, "junction": c, "expected_supplied": exp})
+                    continue
+                net2 = gen.build(spec)
+                st, _ = drive.run(net2, use_numba=False)
+                if st == "ok":
+                    isnan = bool(np.isnan(net2.res_junction.p_bar.at[c]))
+                    if isnan == exp:
+                        ctx.violation({"monitor": "sole_link", "kind": kind, "reverse": reverse, "stage": "result"},
+                                      "res_junction.p_bar of junction %d behind a %s (%s) is %s" % (
+                                          c, kind, "reverse" if reverse else "forward", "NaN" if isnan else "a number"),
+                                      {"kind": "sole_link", "net": spec, "junction": c, "expected_supplied": exp})
+
+
 # ------------------------------------------------------------------------------ property-level oracle (pit graph)
-def reach_oracle(npit, bpit):
+def reach_oracle(npit, bpit, net=None):
     """the property text on the pit graph: reachable from an in-service pressure-fixed node through in-service
-    hydraulically connecting branches (flow-return-connect branches do not connect; directed ones one way)"""
+    hydraulically connecting branches; which kinds do not connect (heat consumers, controlling flow controllers) and
+    which connect one way only (pressure controllers) is taken from the documentation (cc.doc_flags), not from the pit"""
     n, b = cc.idx()
     N = len(npit)
     fr = bpit[:, b.FROM_NODE].astype(int)
     to = bpit[:, b.TO_NODE].astype(int)
     act = bpit[:, b.ACTIVE].astype(bool)
-    frc = bpit[:, b.FLOW_RETURN_CONNECT].astype(bool)
-    dr = bpit[:, b.DIRECTED].astype(bool)
+    if net is not None:
+        dr, frc = cc.doc_flags(net)
+    else:
+        frc = bpit[:, b.FLOW_RETURN_CONNECT].astype(bool)
+        dr = bpit[:, b.DIRECTED].astype(bool)
     adj = [[] for _ in range(N)]
     for i in range(len(bpit)):
         if act[i] and not frc[i]:
@@ -112,7 +227,7 @@ def classify_conn_mismatch(ctx, sp, flags, bits):
     net = gen.build(sp)
     cc.apply_flags(net, flags, bits)
     _, info, obs = cc.conn_case(net, check=True)
-    exp = reach_oracle(net["_pit"]["node"], net["_pit"]["branch"])
+    exp = reach_oracle(net["_pit"]["node"], net["_pit"]["branch"], net)
     same = (obs is None and exp is None) or (obs is not None and exp is not None and
                                              np.array_equal(obs[0], exp[0]) and np.array_equal(obs[1], exp[1]))
     if same:
@@ -346,6 +461,11 @@ def deletion_monitor(ctx, net, snap_a, spec, changed, kw):
     # compare B's rows against A's rows of the same label
     diffs = drive.same_results(snap_b, snap_a, rtol=RTOL, atol=ATOL)
     diffs = [d for d in diffs if "missing" not in d[1] or "row" not in d[1]]
+    if diffs and zero_flow_machine(snap_a):
+        # a pump / compressor in a dead end: its lift jumps at zero flow (6.1 bar for +0.0, 0 for -1e-17 kg/s), the
+        # pressures behind it are not a continuous function of the data - nothing to compare
+        ctx.count("monitor_deleted_net_skipped_zero_flow_pump")
+        return True
     if diffs:
         # a deleted element may have seeded a start value (an inactive pressure control sets PINIT of its controlled
         # junction): the two Newton runs then agree only up to the solver tolerance.  Re-run both at round-off
@@ -370,6 +490,14 @@ def deletion_monitor(ctx, net, snap_a, spec, changed, kw):
                       {"kind": "deleted_net", "net": spec, "changed": changed, "options": kw})
         return False
     return True
+
+
+def zero_flow_machine(snap):
+    for t in ("res_pump", "res_compressor"):
+        for m in snap.get(t, {}).get("cols", {}).get("mdot_from_kg_per_s", []):
+            if m is not None and abs(m) < 1e-9:
+                return True
+    return False
 
 
 def stagnant(diff, snap):
@@ -405,6 +533,7 @@ def no_supply_monitor(ctx, spec):
 
 def monitors(ctx, widen=False):
     rng = ctx.rng
+    sole_link_matrix(ctx)
     n = 40 if ctx.quick else 400
     if widen:
         n *= 3
@@ -415,6 +544,8 @@ def monitors(ctx, widen=False):
             add_pressure_control(rng, spec)
         if rng.random() < 0.4:
             add_heat_consumer_bridge(rng, spec)
+        if prof != "heat" and rng.random() < 0.5:
+            add_sole_link(rng, spec)
         try:
             one_monitor_case(ctx, rng, spec)
             if i % 4 == 0:
@@ -473,5 +604,14 @@ def replay(ctx, rp):
         print("replay %s: run %s, violations now %d" % (kind, st, len(ctx.violations)))
     elif kind == "no_supply":
         no_supply_monitor(ctx, rp["net"])
+    elif kind == "sole_link":
+        net = gen.build(rp["net"])
+        drive.stages(net, use_numba=False)
+        L = net["_lookups"]
+        got = bool(L["node_active_hydraulics"][L["node_index"]["junction"][rp["junction"]]])
+        print("replay sole_link: junction %d calculated=%s, documented=%s" % (rp["junction"], got, rp["expected_supplied"]))
+        if got != rp["expected_supplied"]:
+            ctx.violation({"monitor": "sole_link"}, "junction behind the sole link: calculated=%s, documented=%s"
+                          % (got, rp["expected_supplied"]), rp)
     else:
         print("replay: nothing to re-run for kind %r" % kind)
